@@ -1,6 +1,33 @@
 """Per-property manifest metadata.  bin/mkmanifest renders MANIFEST.json from this."""
 
 CHECKS = {
+    "C04": dict(
+        text="spec/AshHost.tla models the host's frame handling at event-loop-callback granularity. AshHostOpenMC puts it "
+             "against an open peer: TLC checks, in every reachable state and for every frame of the alphabet, that a DATA frame "
+             "is handed up iff it carries the next expected number, is answered by exactly one ACK/NAK with the next expected "
+             "number (ACK if accepted), that RSTACK zeroes both counters and reports its code, ERROR reports its code and "
+             "ACK/NAK/RST deliver nothing. Every edge of TLC's state graph is replayed on the real AshProtocol; all frame "
+             "sequences up to length 2 (quick) / 3 (thorough) from each of the 8 expected-number states, all 256 reset/error "
+             "codes and long random sequences are recorded from the real code and validated by TLC against Trace_AshHost, "
+             "with an observer that knows only the received frames evaluated on every state.",
+        design_ref="3/C04",
+        note="Trusted: ashref.py encodes the peer's frames and decodes the host's writes (validated against AshCodec.tla in C03); "
+             "well-formed frames only. ACK vs NAK for a non-accepted frame and the flow-control bits are left open, as the property does.",
+        technique="TLA+ spec + TLC exhaustive model check; state-graph edge cover replayed into the code; TLC trace validation of enumerated and random executions",
+    ),
+    "C05": dict(
+        text="AshHost5MC puts the AshHost.tla sender against a scripted peer (covering ACK, stale ACK, NAK, silence, ERROR, "
+             "RSTACK per attempt, paired reactions in one read, reactions landing in the loop iteration of the ACK timer) for 3-4 "
+             "sends from transmit numbers 0, 6, 7; TLC checks attempt bound, same frame number/payload/retransmit flag on repeats, "
+             "silence while failed, one outstanding frame, consecutive numbering, exactly one upward notice with the reason, "
+             "waiters failing, and that silence alone ends every send. Every reaction script up to length 4 (quick) / 6 (thorough) "
+             "x 3 workloads, all full-budget scripts, all codes and random long scripts run on the real AshProtocol in virtual "
+             "time; TLC validates each trace against Trace_AshHost incl. the 400..3200 ms bound on every timeout-driven step.",
+        design_ref="3/C05",
+        note="Trusted: virtual-time loop (bv.vloop) with bellows.ash's `time` rebound to it; ashref.py. Retry budget read from the "
+             "tree (configuration); ACK timeout bounds and error code 0x51 pinned from the ASH text.",
+        technique="TLA+ spec + TLC exhaustive model check; exhaustive reaction-script enumeration on the implementation in virtual time; TLC trace validation with timing clause",
+    ),
     "C03": dict(
         text="spec/AshCodec.tla is an ASH codec written from the protocol text (control bytes, LFSR randomisation, "
              "CRC-CCITT, stuffing) and anchored to the documented example frames. TLC checks it against itself "
